@@ -1075,12 +1075,19 @@ def rule_par_pure(F, ev, R, config, rule="R-PAR-PURE", metadata=None):
     """rayon is used only as par_column_iter_mut().enumerate().map(c).collect(); the closure
     captures by shared reference, has no unsafe / interior mutability / sync primitives"""
     n = 0
+    allk = set(F.bodies)
     for b in sorted(F.bodies.values(), key=lambda x: x.key):
+        rootb = F.bodies.get(b.j.get("root", b.key), b)
+        # a private function that nothing calls cannot influence any result (kept code, `#[allow(dead_code)]`)
+        dead = rootb.j.get("vis") != "pub" and "trait" not in rootb.j.get("impl", {}) and not local_callers(F).get(rootb.key)
         for bi, t in b.calls():
             if "fn" not in t:
                 continue
             fn = t["fn"]
             if fn.get("krate") in ("rayon", "rayon_core") or "par_iter" in fn["path"] or (fn.get("trait", "").startswith("rayon")):
+                if dead:
+                    R.ok(rule, config, b.key, "rayon-in-unreachable-code", "private function without any caller", t.get("span"))
+                    continue
                 n += 1
                 ok = fn["name"] in RAYON_OK
                 R.add(rule, config, b.key, "rayon:" + fn["name"], ok,
